@@ -9,17 +9,21 @@ CONSTANT Prop
 VARIABLE lst
 vars == <<ex, l, lst>>
 Init == \E s \in Starts : TraceInit(s) /\ lst = <<>>
+Capacity(kind) == IF kind = "rtp" THEN 15 ELSE 1000000
 Triples(s) == [i \in 1..Len(s) |-> <<s[i][1], s[i][2], s[i][3]>>]
 Op == /\ IsEvent("op")
       /\ LET e == Ev
-             l2 == CASE e.op = "add" /\ e.applied -> Add(lst, e.code, e.data, Len(e.data))
+             \* a list that is full refuses a further entry with an error and stays as it was (RTP: the CSRC count is a 4-bit field)
+             refused == e.op = "add" /\ Len(lst) >= Capacity(Cfg.kind)
+             l2 == CASE refused -> lst
+                     [] e.op = "add" /\ e.applied -> Add(lst, e.code, e.data, Len(e.data))
                      [] e.op = "addspoof" /\ e.applied -> Add(lst, e.code, e.data, e.spoof)
                      [] e.op = "remove" /\ e.applied -> Remove(lst, e.code)
                      [] OTHER -> lst IN
          /\ lst' = l2
          /\ (IF Prop = "C02"
-             THEN e.thrown = "" /\ (e.wired => SerOK(e.ser))
-             ELSE /\ e.thrown = ""
+             THEN (refused \/ e.thrown = "") /\ (e.wired => SerOK(e.ser))
+             ELSE /\ (IF refused THEN e.thrown # "" ELSE e.thrown = "")
                   /\ e.listed => Triples(e.list) = l2                                              \* the list as the getters show it
                   /\ (e.op = "remove" /\ e.applied) => (e.removed = 1) = (FirstIdx(lst, e.code) # 0)  \* reports whether one existed
                   /\ e.listed => (e.found = (FirstIdx(l2, e.code) # 0))
